@@ -83,6 +83,10 @@ SCENARIOS = {
     'write_mix': dict(callers=[[('write', 1), ('comm', 2), ('write', 3)],
                                [('multi', [(4, False, 0.3), (5, True, 0), (6, False, 0)]), ('comm', 7)]],
                       behaviour={1: ('noreply',), 3: ('noreply',), 4: ('noreply',), 6: ('noreply',)}),
+    # plain strings after tuples with non-default flags in one transaction
+    'multi_mixed': dict(callers=[[('multi_mix', [(1, False, 0.5, False), (2, True, 0, True)]), ('comm', 3)],
+                                 [('multi_mix', [(4, True, 0.3, False), (5, True, 0, True), (6, True, 0, True)]), ('comm', 7)]],
+                        behaviour={1: ('noreply',)}),
     'write_chatty': dict(callers=[[('write', 1), ('sleep', 1), ('comm', 2)], [('sleep', 2.5), ('multi_str', [3, 4])]]),
     # the byte oriented communicator under the same faults
     'bytes_late': dict(bytes=True, callers=[[('comm', 1), ('sleep', 2.5), ('comm', 2)], [('sleep', 5.5), ('comm', 3), M((4, 0), (5, 0))]],
